@@ -5,7 +5,7 @@
    {"k":"doc", "in":[code points], "ok":b, "L":n, "pm":[{"d":n,"ok":b},..], "same":b, "nx":s, "v":tree}
         Value::parse(in) returned Ok (ok) / Err; L = the depth limit of Value::parse as probed;
         parse_max_depth(in, d) for several d; same = every successful call returned the same value;
-        v = that value (or {"t":"none"}).
+        v = that value (or []).
         Expected:  ok <=> IsJson(in) /\ Depth(in) <= L,  each pm.ok <=> IsJson(in) /\ Depth(in) <= d,
         v = Denote(in) (members in document order).  Either outcome is allowed for texts with an
         unpaired surrogate escape or a number literal beyond the f64 range.
@@ -13,8 +13,9 @@
         out = v.serialize() (ind = -1) or v.serialize_pretty(ind); re = Value::parse(out) == v.
         Expected:  IsJson(out), Denote(out) = v, re.
 
-   tree: {"t":"null"} {"t":"bool","b":b} {"t":"str","s":[cp..]} {"t":"arr","a":[tree..]}
-         {"t":"obj","k":[[cp..]..],"a":[tree..]}
+   tree: the nodes of the value in preorder (flat, because the JSON reader refuses nesting > 255):
+         {"t":"null"} {"t":"bool","b":b} {"t":"str","s":[cp..]} {"t":"arr","n":size}
+         {"t":"obj","n":size,"k":[[cp..]..]}
          {"t":"num","neg":b,"dg":[d..],"ex":n,"inf":b}: the f64 as its shortest round-trip decimal
          dg * 10^ex (no leading / trailing zeros in dg; zero: dg = []).  A literal of at most 15
          significant digits inside the normal range converts to the f64 whose shortest decimal is the
@@ -23,6 +24,7 @@
 EXTENDS Json8259, Json, IOUtils
 
 Rec == ndJsonDeserialize(IOEnv.TRACE)
+NoAlphabet == <<>>      \* the enumerator of Json8259 is not used here
 
 (* the number a literal denotes, as digits * 10^ex *)
 RECURSIVE LeadZ(_, _), TrailZ(_, _), DigVal(_, _, _)
@@ -59,16 +61,21 @@ NumSame(lit, l) ==
   ELSE IF TlcComparable(n) THEN n.neg = l.neg /\ n.dg = l.dg /\ n.ex = l.ex
   ELSE n.neg = l.neg \/ l.dg = <<>>                                    \* value left to the harness (nx)
 
-RECURSIVE Same(_, _)
-Same(d, l) ==
+\* the nodes of a value tree in preorder; containers carry their size (and keys)
+RECURSIVE Flat(_)
+Flat(d) == IF d.t = "arr" THEN <<[t |-> "arr", n |-> Len(d.a)]>> \o Concat([k \in 1..Len(d.a) |-> Flat(d.a[k])])
+           ELSE IF d.t = "obj" THEN <<[t |-> "obj", n |-> Len(d.a), k |-> d.k]>> \o Concat([k \in 1..Len(d.a) |-> Flat(d.a[k])])
+           ELSE <<d>>
+NodeSame(d, l) ==
   IF d.t # l.t THEN FALSE
   ELSE IF d.t = "null" THEN TRUE
   ELSE IF d.t = "bool" THEN d.b = l.b
   ELSE IF d.t = "num" THEN NumSame(d.n, l)
   ELSE IF d.t = "str" THEN d.s = l.s
-  ELSE IF d.t = "arr" THEN Len(d.a) = Len(l.a) /\ \A k \in 1..Len(d.a) : Same(d.a[k], l.a[k])
-  ELSE /\ Len(d.a) = Len(l.a) /\ d.k = l.k
-       /\ \A k \in 1..Len(d.a) : Same(d.a[k], l.a[k])
+  ELSE IF d.t = "arr" THEN d.n = l.n
+  ELSE d.n = l.n /\ d.k = l.k
+\* d = a denotation (tree), l = the logged preorder list
+Same(d, l) == LET f == Flat(d) IN Len(f) = Len(l) /\ \A k \in 1..Len(f) : NodeSame(f[k], l[k])
 
 RECURSIVE HasBigNum(_)
 HasBigNum(d) == IF d.t = "num" THEN MayOverflow(NormNum(d.n))
@@ -97,11 +104,23 @@ WhySer(r) ==
   ELSE ""
 Why(r) == IF r.k = "doc" THEN WhyDoc(r) ELSE WhySer(r)
 
+\* Attribution of a mismatch: is the doc record exactly what Part 2 of Json8259 (the model of parser.rs)
+\* predicts under the deviations of this configuration's Dev?  (Trace_Json8259_dev_*.cfg)
+ModelExplains(r) ==
+  LET top == Impl(r.in, r.L)
+      anyok == r.ok \/ \E k \in 1..Len(r.pm) : r.pm[k].ok
+      some == IF r.ok THEN top
+              ELSE Impl(r.in, r.pm[CHOOSE k \in 1..Len(r.pm) : r.pm[k].ok].d)
+  IN  /\ top.ok = r.ok
+      /\ \A k \in 1..Len(r.pm) : Impl(r.in, r.pm[k].d).ok = r.pm[k].ok
+      /\ anyok => Same(some.v, r.v)
+
 VARIABLES l, bad
 TInit == toks = <<>> /\ txt = <<>> /\ l = 1 /\ bad = <<>>
 TNext == /\ l <= Len(Rec)
          /\ l' = l + 1
-         /\ LET w == Why(Rec[l]) IN
+         /\ LET w == IF Dev = {} THEN Why(Rec[l])
+                     ELSE IF ModelExplains(Rec[l]) THEN "" ELSE "not what the model of parser.rs predicts under Dev" IN
             bad' = IF w = "" \/ Len(bad) >= 50 THEN bad ELSE Append(bad, [i |-> l, why |-> w])
          /\ UNCHANGED <<toks, txt>>
 TSpec == TInit /\ [][TNext]_<<l, bad, toks, txt>>
